@@ -127,3 +127,11 @@ Definition go_strconv_FormatUint_10 (n : Z) : go_string := dec_u n.
 Definition go_strconv_FormatUint_16 (n : Z) : go_string := hex_u n.
 Definition go_strconv_FormatInt_10 (n : Z) : go_string := dec_s n.
 Definition go_strconv_FormatBool (b : bool) : go_string := bool_text b.
+
+(** * [*string] / [*uint8] / [*bool] struct members (filled by json.Unmarshal): [option] of the base
+    type, nil = [None]; [p != nil] is [go_notnil p], [*p] is [go_deref zero p] (GoSem.v; the
+    nil-dereference panic is NOT modelled: the zero value is read).  [json.Unmarshal(b, &x)] itself has
+    no model here: it is an ORACLE parameter [o_json_Unmarshal_S : go_bytes -> S -> err * S] of the
+    translated function (document, x before -> error, x after); Equiv.v states the lemma for every
+    oracle that agrees with the hand model's [FrameJSON.read_doc]. *)
+Definition go_notnil {A : Type} (p : option A) : bool := match p with Some _ => true | None => false end.
